@@ -27,7 +27,7 @@ def dist(spec):
     d = {}
     tot = sum((canon.pf(b["w"]) for b in spec["ballots"]), F(0))
     for b in spec["ballots"]:
-        k = tuple(g[0] for g in b["r"])
+        k = tuple(frozenset(g) for g in b["r"])  # a tied position is a set: {A,B} is neither A>B nor B>A
         d[k] = d.get(k, F(0)) + canon.pf(b["w"]) / tot
     return d
 
@@ -234,7 +234,15 @@ def run(ctx):
         if rnd.random() < 0.3:
             # names whose concatenations are ambiguous ("1"+"2" vs "12"): rankings must be told apart as tuples, not as text
             cs = rnd.sample(["1", "2", "12", "21", "A", "B", "AB", "BA", "112"], n)
-        specs = [gen.ranked(rnd, cs=cs, nb=rnd.randint(1, 5), wkind=rnd.choice(["int", "rat"])) for _ in range(3)]
+        tied = rnd.random() < 0.25
+        if tied:
+            ctx.count("lp_triples_with_tied_positions")
+        specs = [gen.ranked(rnd, cs=cs, nb=rnd.randint(1, 5), wkind=rnd.choice(["int", "rat"]), ties=tied) for _ in range(3)]
+        if tied and n >= 2:
+            # a tied pair in one profile, the same candidates in a strict order in another: different rankings
+            a, b_ = rnd.sample(cs, 2)
+            specs[0]["ballots"].append(canon.spec_ballot(r=[[a, b_]], w=gen.weight(rnd, "int")))
+            specs[1]["ballots"].append(canon.spec_ballot(r=[[a], [b_]], w=gen.weight(rnd, "int")))
         if rnd.random() < 0.3 and n >= 3:
             # look-alike pair cast in different profiles: a rotation of the same candidates
             r0 = rnd.sample(cs, n)
